@@ -969,6 +969,21 @@ static void fam_c18_purge(G& g, Plan& p) {
     P.ops.push_back(mk(OP_purge_check, -1, 1, (uint64_t)rounds, w1 * (uint64_t)rounds));
     return;
   }
+  // re-armed arena schedule: a whole segment is freed and taken again before its purge is due, a non-forced pass then finds the
+  // arena's deadline expired with nothing left to purge; what is freed after that must still be purged by time
+  if (nhuge && delay > 0 && g.chance(0.35)) {
+    const uint64_t aw = (uint64_t)delay * (uint64_t)mult + 2;
+    int cycles = 1 + (int)g.below(3);
+    for (int c = 0; c < cycles; c++) {
+      int hs = 40 + (int)g.below((uint64_t)nhuge);
+      P.ops.push_back(mk(OP_free, hs));
+      if (g.chance(0.5)) P.ops.push_back(mk(OP_advance, -1, g.below(aw)));
+      P.ops.push_back(mk(OP_malloc, hs, 17 * MiB + g.below(many_arenas ? 12 * MiB : 40 * MiB)));
+      P.ops.push_back(mk(OP_advance, -1, aw + g.below(10)));
+      P.ops.push_back(mk(OP_collect, -1, 0));
+      if (g.chance(0.5)) { P.ops.push_back(mk(OP_malloc, 101, 48)); P.ops.push_back(mk(OP_free, 101)); }
+    }
+  }
   // free what is to be watched
   for (int i = 0; i < nwatch; i++) { Op o = mk(OP_free, i); o.flags = OPF_WATCH; P.ops.push_back(o); if (delay == 0) P.ops.push_back(mk(OP_purge_check, -1, 1, 0)); }
   for (int i = 0; i < nhuge; i++) { Op o = mk(OP_free, 40 + i); o.flags = OPF_WATCH; P.ops.push_back(o); if (delay == 0) P.ops.push_back(mk(OP_purge_check, -1, 1, 0)); }
@@ -1640,7 +1655,7 @@ static void fam_c17_misuse(G& g, Plan& p) {
     if (k < 25) P.ops.push_back(mk(OP_free, slot));
     else if (k < 30) P.ops.push_back(gen_realloc(g, slot, mix, 0, false));
     else if (k < 33) P.ops.push_back(mk(OP_collect, -1, g.below(2)));
-    else if (k < 41) { Op o = mk(kind == 0 ? OP_double_free : kind == 1 ? OP_overflow_byte : OP_corrupt_free_link, (kind == 1 && nt > 1 && g.chance(0.5)) ? 150 + (int)g.below(40) : slot, g.below(1000000)); if (kind == 0) o.b = g.pick<uint64_t>({0, 1, 1, 2, 2}); P.ops.push_back(o); }
+    else if (k < 41) { Op o = mk(kind == 0 ? OP_double_free : kind == 1 ? OP_overflow_byte : OP_corrupt_free_link, (kind == 1 && nt > 1 && g.chance(0.5)) ? 150 + (int)g.below(40) : slot, g.below(1000000)); if (kind == 0) o.b = g.pick<uint64_t>({0, 1, 1, 2, 2, 4, 4}); P.ops.push_back(o); }
     else P.ops.push_back(mk(g.chance(0.1) ? OP_zalloc : OP_malloc, slot, g.chance(0.12) ? 1 + g.below(7) : g.chance(0.7) ? cls[g.below(cls.size())] : gen_size(g, mix)));
     if (g.chance(0.02)) kind = (int)g.below(3);
   }
